@@ -107,7 +107,29 @@ class Session:
                         self.stats["cvc5_disagree"] += 1
                         return "unknown", {"note": "z3 unsat but cvc5 sat"}, "z3!=cvc5", None
                 return "discharged", None, backend, None
+            if r == z3.sat and getattr(ctx, "quantified", None):
+                # The universal hypotheses were only instantiated at finitely many terms: a model of
+                # those instances is a *candidate* counterexample.  Re-check with the hypotheses as
+                # genuine quantifiers; only a model that survives (or an inconclusive re-check)
+                # is passed on.
+                qs = [q for q in ctx.quantified if q is not None]
+                s.push()
+                try:
+                    for q in qs:
+                        s.add(q)
+                    t1 = time.time()
+                    rq = s.check()
+                    self.stats["z3_time"] += time.time() - t1
+                    self.stats["quantified_rechecks"] = self.stats.get("quantified_rechecks", 0) + 1
+                finally:
+                    s.pop()
+                if rq == z3.unsat:
+                    return "discharged", None, "z3(quantified hypotheses)", None
+                if rq == z3.unknown or len(qs) != len(ctx.quantified):
+                    return "unknown", model_to_dict(s.model()) if False else None, "z3", None
             if r == z3.sat:
+                if getattr(ctx, "quantified", None):
+                    s.check()           # restore the model of the instance-level problem
                 model = model_to_dict(s.model())
                 known = None
                 if excuses:
